@@ -26,7 +26,33 @@ Decided:
          violation: werkzeug reads naive datetimes as UTC, so such a value is off by the server's UTC offset.  Decided over
          an abstract domain of *kinds* of time value (epoch / struct_time / naive-UTC / naive-local / aware), never
          over instants; any other construction is an ANALYSIS-ERROR.
-Declined: byte equality of bodies, MIME guessing, date formatting.
+  R14.g  no history (c14_state.py): the path handed to build_file_response is, on every path, the result of the find_file call
+         made by *this* request (StaticFileRoute: the configured self.file_path); no function on the serving path stores a
+         value of the request / of a probe of the file system in an object that outlives the request (self, the class, a
+         module-level object, a function attribute, a mutable default, a global); no serving function is wrapped by a
+         result cache (functools.lru_cache / cache, a decorator of the package whose wrapper stores into its enclosing
+         scope, ``f = cache(f)`` at module level).  A later request must see the directory tree as it is then.
+  R14.h  one file (c14_faith.py): the regular-file test, open(), getsize() and the type guess all name the path parameter,
+         which is never re-bound; the file is opened read-only in binary mode.
+  R14.i  first search directory wins (c14_faith.py): find_file visits search_paths in the given order and leaves the
+         search at the first regular file; StaticApplication.__init__ keeps the order it was given.
+  R14.j  a 304 carries no body (c14_faith.py): the response marked 304 is the one returned, it was created with an empty
+         body, and no store to its body reaches that return.
+  R14.k  like with like (c14_faith.py): the time compared with If-Modified-Since and the time sent as Last-Modified are
+         the same function of the file (same callee, same arguments after binding defaults and folding constants).
+  R14.l  the Content-Type is guessed (c14_faith.py): every source of the header is the mimetype argument, guess_type(<served
+         path>)[0], or one of the two configured defaults; default_binary_mime is chosen only under is_binary_string(<what
+         peek_file read from the opened file>), default_text_mime never under it.
+  R14.m  configuration reaches build_file_response unchanged (c14_faith.py): both endpoints pass cache_timeout=self.cache_timeout
+         and cached_modify_time=request.if_modified_since, the application its two default types (not swapped), the route its
+         mimetype; the constructors store exactly their arguments; cache_timeout defaults to a positive number (client
+         caching is on by default -- otherwise the 304 branch is dead); the application's default types are those of
+         build_file_response.
+  R14.n  the body is the whole file (c14_faith.py): peek_file seeks back to the position tell() gave before the read on
+         every normal path to its exit; build_file_response itself never reads from / moves the handle before it is wrapped.
+  R14.b  also covers every HTTP error raised by a function of the module the endpoints call (public helpers).
+Declined: byte equality of bodies, what mimetypes.guess_type / is_binary_string answer (values), date formatting; that the handle is closed on every error path between
+open() and the response (a resource clause, not part of the statement: the tree itself leaks it when the stat fails).
 
 Constructs are located by role, not by spelling.  The loader dissolves private helpers into their callers; on top of
 that the rules follow: tests held in a single-assignment local (``flag = X.startswith('/')`` ... ``if flag``,
@@ -469,16 +495,35 @@ def _group(rep, fn, *args):
 def run(rep):
     rep.decide('R14.a sanitise-then-use in find_file; R14.b non-breaking 403/404 discipline; R14.c filesystem calls '
                'under OSError handlers; R14.d 304 / success header assignments; R14.e route shape; R14.f the served '
-               'modification time is constructed in UTC, from the file\'s own mtime, in whole seconds')
-    rep.decline('byte equality of served bodies, MIME guessing, Last-Modified formatting (values)')
+               'modification time is constructed in UTC, from the file\'s own mtime, in whole seconds; R14.g no history: the '
+               'served path is looked up by this request, nothing a request learns outlives it, no result cache around a serving '
+               'function; R14.h test / open / size / type guess name the one served path, binary read-only open; R14.i search '
+               'paths visited in order, first regular file wins, order kept by the application; R14.j the 304 answer has no body; '
+               'R14.k Last-Modified and the 304 comparison are computed the same way; R14.l the Content-Type is the given mimetype, '
+               'the guess for the served path, or the binary / text default chosen by peeking into the opened file; R14.m the '
+               'configuration (cache_timeout on by default, default types, mimetype) and If-Modified-Since reach build_file_response '
+               'unchanged; R14.n peeking restores the position of the handle, which reaches the wrapper unread')
+    rep.decline('byte equality of served bodies, the answers of mimetypes.guess_type / is_binary_string, Last-Modified formatting (values); closing the handle on every error '
+                'path between open() and the response (resource clause, not in the statement)')
     rep.assume('os.path.normpath leaves ".." components only as a prefix of a relative path (POSIX semantics)')
     rep.assume('os.path.isfile never raises')
     _group(rep, _r14a)
     _group(rep, _r14b)
+    _group(rep, _r14b_helpers)
     _group(rep, _r14c)
     _group(rep, _r14d)
     _group(rep, _r14e)
     _group(rep, _r14f)
+    _group(rep, _r14g_provenance)
+    _group(rep, _r14g_state)
+    from . import c14_faith
+    _group(rep, c14_faith.r14h)
+    _group(rep, c14_faith.r14i)
+    _group(rep, c14_faith.r14j)
+    _group(rep, c14_faith.r14k)
+    _group(rep, c14_faith.r14l)
+    _group(rep, c14_faith.r14m)
+    _group(rep, c14_faith.r14n)
 
 
 def _find_file_call(st):
@@ -589,9 +634,34 @@ def _r14a(rep):
             return False
         g = v.args[0]
         return any(is_isfile_of(c, g.elt) for gen in g.generators for i in gen.ifs for c, p_ in expand_conds([(i, True)]) if p_ is True)
+
+    def first_regular_filtered(v):
+        """``next(filter(isfile, <candidates>), None)``: filter() lets through exactly the candidates isfile() accepts"""
+        if not (isinstance(v, ast.Call) and isinstance(v.func, ast.Name) and v.func.id == 'next' and len(v.args) == 2 and not v.keywords
+                and isinstance(v.args[1], ast.Constant) and v.args[1].value is None and 'next' not in _locals_of(ff)):
+            return False
+        g = v.args[0]
+        return isinstance(g, ast.Call) and isinstance(g.func, ast.Name) and g.func.id == 'filter' and 'filter' not in _locals_of(ff) and \
+            len(g.args) == 2 and not g.keywords and norm(g.args[0]) in ('isfile', 'os.path.isfile') and \
+            not (isinstance(g.args[0], ast.Name) and g.args[0].id in _locals_of(ff))
+    def bound_regular(v):
+        """``found = <p>`` under isfile(<p>) ... ``return found``: every binding of the returned local is None or a value
+        tested to be a regular file where it is bound"""
+        if not isinstance(v, ast.Name) or v.id in params:
+            return False
+        some = False
+        for s_, val, idx in assigned_value(ff.node, v.id):
+            if idx is not None or not isinstance(val, ast.expr):
+                return False
+            if isinstance(val, ast.Constant) and val.value is None:
+                continue
+            if not has_cond(_conds(ff, s_), lambda t: is_isfile_of(t, val), True):
+                return False
+            some = True
+        return some
     for r in frets:
         cs = _conds(ff, r)
-        ok = ok and (has_cond(cs, lambda t: is_isfile_of(t, r.value), True) or first_regular(r.value))
+        ok = ok and (has_cond(cs, lambda t: is_isfile_of(t, r.value), True) or first_regular(r.value) or first_regular_filtered(r.value) or bound_regular(r.value))
     rep.check('R14.a', fkey(ff, 'only regular files'), ok, 'a path is returned only under isfile(<that path>)' if ok else
               'find_file can return a path that is not a regular file (exists()/isdir/no test): directories shadow files of later '
               'search paths and reach the 304 branch', st, frets[0] if frets else ff.node)
@@ -626,8 +696,45 @@ def _r14b(rep):
     nf = [r for r in raises_of(gfr) if res_var is not None and _rtype(gfr, r) == 'NotFound' and implies_absent(_conds(gfr, r), res_var)]
     rep.check('R14.b', fkey(gfr, 'None => NotFound'), bool(nf), 'a missing file raises NotFound' if nf else
               'a None result of find_file is not turned into NotFound', st, gfr.node)
-    # the bfr call only happens with a found path: not reachable when result is None
+    # the errors raised are clastic's own (they take is_breaking); a class of the same name from elsewhere does not
+    seen_names = set()
+    for fi in serving:
+        for r in raises_of(fi):
+            e = _raised(fi, r)
+            f = e.func if isinstance(e, ast.Call) else e
+            if not (isinstance(f, ast.Name) and f.id in HTTP_ERRS) or f.id in seen_names or f.id in _locals_of(fi):
+                continue
+            seen_names.add(f.id)
+            kind, m, obj = repo.resolve(st, f.id)
+            if kind == 'unknown':
+                raise AnalysisError('%s: where %s comes from is not followed' % (fi.qualname, f.id))
+            ok = kind == 'class' and m is not None and not m.external
+            rep.check('R14.b', fkey(st.func('build_file_response'), 'error class %s' % f.id), ok,
+                      '%s is the class of the package (accepts is_breaking)' % f.id if ok else
+                      '%s is not clastic\'s error class (%s): is_breaking=False is not understood, the request fails instead of falling '
+                      'through to the next route' % (f.id, obj if isinstance(obj, str) else kind), st, r)
     rep.floor('R14.b', 7)
+
+
+def _r14b_helpers(rep):
+    """Functions of the module the endpoints call and the front-end did not dissolve (public helpers): the same
+    non-breaking discipline for every HTTP error they raise."""
+    repo = rep.repo
+    st = repo.mod(STATIC)
+    serving = [st.func('build_file_response'), st.func('StaticApplication.get_file_response'),
+               st.func('StaticFileRoute.get_file_response')]
+    from . import c14_state
+    for fi in c14_state.serving_functions(repo, st, serving[1:]):
+        if any(fi is x for x in serving):
+            continue
+        for r in raises_of(fi):
+            nb = _is_nonbreaking_http(fi, r)
+            if nb is None and _rtype(fi, r) not in HTTP_ERRS:
+                continue        # not an HTTP error: what becomes of it is judged where it is caught (R14.a / R14.c)
+            rep.check('R14.b', fkey(fi, r) + '#' + ','.join(cond_texts(conds(fi, r)))[:80], nb is True,
+                      '%s is raised non-breaking' % _rtype(fi, r) if nb is True else
+                      '%s raised without is_breaking=False in %s, which serves static files: later (overlapping) static applications '
+                      'are never tried' % (_rtype(fi, r), fi.qualname), st, r)
 
 
 def _r14c(rep):
@@ -814,6 +921,56 @@ def _r14e(rep):
         all(_all_srcs(gfr, _argn(gfr, c, 'cached_modify_time', 2), lambda e: norm(e) == 'request.if_modified_since') for c in bc)
     rep.check('R14.e', fkey(gfr, 'if_modified_since'), ok, 'conditional requests use request.if_modified_since' if ok else
               'cached_modify_time is not request.if_modified_since', st, bc[0] if bc else gfr.node)
+
+
+# ---------------------------------------------------------------------------------------------- R14.g: no history
+def _bfr_calls(fi):
+    return [c for c in walk_body(fi.node) if isinstance(c, ast.Call) and call_name(c) in local_aliases(fi, 'build_file_response')]
+
+
+def _r14g_provenance(rep):
+    """What is served is what *this* request looked up: every value that can reach the path argument of
+    build_file_response is the result of the find_file call of this activation (StaticApplication) / the configured
+    file path (StaticFileRoute) -- not something remembered from an earlier request."""
+    repo = rep.repo
+    st = repo.mod(STATIC)
+    rep.rule('R14.g', 'the answer is computed from this request and the file system as it is now: the served path comes from the '
+             'lookup made by this request, nothing a request learns is kept in an object that outlives it, no serving function is '
+             'wrapped by a result cache')
+    gfr, ffc, res_var = _find_file_call(st)
+    bc = _bfr_calls(gfr)
+    if not bc:
+        raise AnalysisError('StaticApplication.get_file_response: call of build_file_response not found')
+
+    def looked_up_now(e):
+        return e is ffc or (isinstance(e, ast.Constant) and e.value is None)
+    for c in bc:
+        p = _argn(gfr, c, 'path', 0)
+        ok = p is not None and _all_srcs(gfr, p, looked_up_now) and any(x is ffc for x in _srcs(gfr, p))
+        rep.check('R14.g', fkey(gfr, 'served path is looked up by this request'), ok,
+                  'the path handed to build_file_response is, on every path, the result of this request\'s find_file call' if ok else
+                  'the path handed to build_file_response (%s) does not always come from the find_file call of this request: %s'
+                  % (short(p) if p is not None else '?', '; '.join(short(x, 50) for x in (_srcs(gfr, p) if p is not None else [])
+                                                                     if not (isinstance(x, ast.expr) and looked_up_now(x))) or 'no source'),
+                  st, c)
+    sfr = st.func('StaticFileRoute.get_file_response')
+    bc2 = _bfr_calls(sfr)
+    if not bc2:
+        raise AnalysisError('StaticFileRoute.get_file_response: call of build_file_response not found')
+    for c in bc2:
+        p = _argn(sfr, c, 'path', 0)
+        ok = p is not None and _all_srcs(sfr, p, lambda e: norm(e) == 'self.file_path')
+        rep.check('R14.g', fkey(sfr, 'served path is the configured one'), ok,
+                  'the route serves self.file_path' if ok else
+                  'the path handed to build_file_response (%s) is not always self.file_path' % (short(p) if p is not None else '?'), st, c)
+
+
+def _r14g_state(rep):
+    from . import c14_state
+    repo = rep.repo
+    st = repo.mod(STATIC)
+    roots = [st.func('StaticApplication.get_file_response'), st.func('StaticFileRoute.get_file_response')]
+    c14_state.check_history_free(rep, 'R14.g', st, roots)
 
 
 # ---------------------------------------------------------------------------------------------- R14.f: time base
